@@ -1428,6 +1428,18 @@ theorem validateRequest_skeleton_body_readable (c : Cfg) (oc : Bytes → BodyOut
   · exact Or.inl ⟨by simp [readAll, hb], hg⟩
   · exact Or.inr ⟨by simp [readAll, hb], hg⟩
 
+/-- **… and of ValidateSecurityRequirements**: any complete path of its regenerated skeleton (any number of requirements
+tried, `continue` after a failing one, return at the first satisfied one or after the last), each call of
+validateSecurityRequirement executed by `Stream.secReq` on the next pending requirement: the body is whole
+afterwards, GetBody rewinds to it, and every callback that ran could read all of it.  Full strength. -/
+theorem secPhase_skeleton_body_readable (c : Cfg) (oc : Bytes → BodyOutcome) (data : Bytes) (r : Req)
+    (h : Coherent r data) (t : List Ev) (hp : SegPath (segs (bodyOf "ValidateSecurityRequirements" c13BodyFlow) []) t)
+    (pend : List (List Scheme)) (s' : KSt) (hr : runK c oc t ⟨r, [], pend⟩ = some s') :
+    Readable s'.req data ∧ ∀ x ∈ s'.seen, x = data := by
+  rw [vsr_vr_segments.1] at hp
+  obtain ⟨⟨hb, hg⟩, hs⟩ := vsrSegs_readable c oc data _ _ hp (by simp [vsrSuffixes]) ⟨r, [], pend⟩ s' ⟨h, by simp⟩ hr
+  exact ⟨⟨by simp [readAll, hb], hg⟩, hs⟩
+
 end TracePart
 
 end KinModel.C13
